@@ -1,2 +1,438 @@
-// Package c18 will hold the check for property C18.
+// Package c18 decides C18: message HTML and text shown in the web UI cannot carry active content.
+//
+// sanitize.HTML and web.TextToHTML are called directly with generated hostile inputs (HTML
+// grammar, CSS grammar for style attributes, byte-level mutations of classic XSS vectors, a
+// mutation-feedback loop); an end-to-end slice delivers MIME messages and reads the "html" and
+// "text" fields of GET /serve/mailbox/{name}/{id}.  The output of sanitize.HTML is re-parsed with
+// golang.org/x/net/html (full document and <body> fragment) and the resulting DOM is searched
+// for the classes the property names; style attributes are split by an independent CSS Syntax 3
+// declaration splitter (cssref.go).  TextToHTML output is tokenized: only text, <a href
+// target="_blank">, </a> and <br/> may occur and the text, with those tags removed, must be the
+// fully escaped input.
 package c18
+
+import (
+	"encoding/base64"
+	"fmt"
+	"hash/fnv"
+	"sort"
+	"strings"
+
+	"github.com/inbucket/inbucket/v3/pkg/server/web"
+	"github.com/inbucket/inbucket/v3/pkg/webui/sanitize"
+
+	"verifharness/internal/fw"
+)
+
+func init() {
+	fw.Register(&fw.Prop{
+		ID:    "C18",
+		Level: "exploration",
+		Rule: "streams: directed (every classic XSS vector of the built-in corpus, verbatim), html (HTML grammar: nesting errors, unterminated " +
+			"tags/attributes/comments, mixed case, duplicate attributes, raw-text elements, entities with/without ';', NUL, on* attributes, " +
+			"javascript:/data:/vbscript: URLs with embedded whitespace/control characters/entities, svg/math integration points; plus byte-level " +
+			"mutations of the corpus), css (style attributes from a CSS grammar: comments, strings, url(), at-rules, escapes, ';' inside " +
+			"strings/parens/blocks, unterminated constructs, tokenizer-differential code points), feedback (per-case mutation loop that keeps " +
+			"inputs whose sanitized output shows a new feature set), text (TextToHTML inputs with URLs, brackets, quotes, entities, all newline " +
+			"forms), e2e (MIME messages through Manager.Deliver and GET /serve/mailbox/{name}/{id}). Oracle: DOM of the output under html.Parse and " +
+			"html.ParseFragment(<body>) has no script/style/iframe/frame/frameset/object/form element, no on* attribute, no javascript: URL " +
+			"attribute, and every style declaration found by an independent CSS Syntax 3 splitter has an allow-listed property; sanitize.HTML " +
+			"returns no error. A case is non-trivial and distinct by (sorted deciding classes present in the DOM of the INPUT, allow-listed " +
+			"properties kept in the output, output shape flags) when the input carried at least one deciding class or the output kept a style " +
+			"declaration; text cases by (special characters present, anchors, breaks, javascript anchor, entity split).",
+		Assumptions: []string{
+			"the browser is modelled by golang.org/x/net/html tree construction (document and <body> fragment) and by a CSS Syntax Level 3 declaration splitter written for this check",
+			"a style declaration decides the property only if its name is off the allow-list under both identifier readings (CSS Syntax 3 and the ASCII reading); an allow-listed name directly followed by a non-ASCII/control code point is counted (style_name_extends_allowlisted_prefix)",
+			"declarations that exist only under the CSS-nesting-era 'consume a block's contents' reading (text after a top-level {}-block) are counted (style_nesting_era_extra_decl), not judged",
+			"embed/applet/input/button/select/textarea/meta/link/base/svg/math elements and vbscript:/data:text/html URLs are counted, not judged; values of allow-listed CSS properties are not restricted",
+			"javascript: anchors that TextToHTML itself generates from plain text are counted, not judged; an anchor boundary that cuts a character reference (stray ';' in the DOM text) is counted (text_entity_split_by_anchor)",
+			"in the e2e slice the input of the oracle is what inbucket's own MIME parser reports as HTML()/Text() of the stored message (MIME decoding fidelity is C02)",
+			"sampling of an infinite input space: no bypass among the K inputs of these shapes, nothing more",
+		},
+		MinObs: func(tier string) map[string]int64 {
+			m := map[string]int64{
+				"html_inputs": 20000, "text_inputs": 5000, "e2e_messages": 100, "e2e_html_checked": 50, "e2e_text_checked": 50,
+				"in_forbidden_element": 2000, "in_event_attr": 2000, "in_javascript_url": 500, "in_css_not_allowlisted": 1000,
+				"out_style_attrs": 500, "out_style_decls_allowlisted": 500, "text_anchors": 2000, "text_breaks": 2000,
+				"text_inputs_with_specials": 2000, "feedback_pool_additions": 50, "directed_vectors": int64(len(xssCorpus)),
+				"distinct_nontrivial": 300,
+			}
+			if tier == "thorough" {
+				for k, v := range m {
+					if k != "directed_vectors" {
+						m[k] = v * 10
+					}
+				}
+			}
+			return m
+		},
+		Run: run,
+	})
+}
+
+// tally collects counters locally and flushes them once per case.
+type tally map[string]int64
+
+func (t tally) flush(c *fw.Ctx) {
+	keys := make([]string, 0, len(t))
+	for k := range t {
+		keys = append(keys, k)
+	}
+	sort.Strings(keys)
+	for _, k := range keys {
+		if t[k] != 0 {
+			c.Count(k, t[k])
+		}
+		delete(t, k)
+	}
+}
+
+const perCase = 8
+
+// noted remembers, per child process, which counted-only classes already have a sample.
+var noted = map[string]bool{}
+
+func run(c *fw.Ctx) {
+	startWatchdog(c.Slow)
+	c.Cases("directed", len(xssCorpus), func(i int, r *fw.Rand) {
+		t := tally{}
+		evalHTML(c, t, "directed", xssCorpus[i], true)
+		t["directed_vectors"]++
+		t.flush(c)
+	})
+	c.Cases("html", c.N(15000, 300000), func(i int, r *fw.Rand) {
+		t := tally{}
+		for k := 0; k < perCase; k++ {
+			var in string
+			switch r.Weighted([]int{60, 30, 10}) {
+			case 0:
+				in = genHTMLDoc(r)
+			case 1:
+				in = mutate(r, pick(r, xssCorpus), func() string { return pick(r, xssCorpus) })
+			default:
+				in = mutate(r, genHTMLDoc(r), func() string { return pick(r, xssCorpus) })
+			}
+			evalHTML(c, t, "html", in, k == 0 && i%50 == 0)
+		}
+		t.flush(c)
+	})
+	c.Cases("css", c.N(8000, 150000), func(i int, r *fw.Rand) {
+		t := tally{}
+		for k := 0; k < perCase; k++ {
+			css := genCSS(r)
+			if r.Chance(1, 5) {
+				css = mutate(r, css, func() string { return genCSS(r) })
+			}
+			q := `"`
+			v := strings.ReplaceAll(strings.ReplaceAll(css, "&", "&amp;"), `"`, "&quot;")
+			switch r.Intn(8) {
+			case 0:
+				q = "'"
+				v = strings.ReplaceAll(strings.ReplaceAll(css, "&", "&amp;"), "'", "&#39;")
+			case 1:
+				v = css // raw: quotes and '&' inside act on the HTML level
+			case 2:
+				v = entitize(r, css, 1, 6)
+				v = strings.ReplaceAll(v, `"`, "&#34;")
+			}
+			in := "<" + pick(r, []string{"p", "div", "span", "a", "td", "img", "b", "font"}) + " style=" + q + v + q + ">x"
+			evalHTML(c, t, "css", in, k == 0 && i%50 == 0)
+		}
+		t.flush(c)
+	})
+	c.Cases("feedback", c.N(64, 1280), func(i int, r *fw.Rand) {
+		t := tally{}
+		feedbackSession(c, t, r, c.N(600, 4000))
+		t.flush(c)
+	})
+	c.Cases("text", c.N(6000, 120000), func(i int, r *fw.Rand) {
+		t := tally{}
+		for k := 0; k < perCase; k++ {
+			evalText(c, t, "text", genPlainText(r), k == 0 && i%50 == 0)
+		}
+		t.flush(c)
+	})
+	runE2E(c)
+}
+
+func b64(s string) string { return base64.StdEncoding.EncodeToString([]byte(s)) }
+
+var knownCSSClass = func() map[string]bool {
+	m := map[string]bool{}
+	for _, n := range cssOtherNames {
+		m["css:"+fwKey(n)] = true
+	}
+	return m
+}()
+
+// inputClasses returns the deciding classes an INPUT carries (what the sanitizer has to
+// remove), from the token-level view: hostile raw input is never given to tree construction.
+func inputClasses(in string) []string {
+	f, _ := tokenFacts(in)
+	set := map[string]bool{}
+	for k := range f.Classes {
+		if strings.HasPrefix(k, "css:") && !knownCSSClass[k] {
+			k = "css:other"
+		}
+		set[k] = true
+	}
+	var l []string
+	for k := range set {
+		l = append(l, k)
+	}
+	sort.Strings(l)
+	return l
+}
+
+// evalHTML runs sanitize.HTML on one input and applies the DOM oracle.  It returns the
+// output and its (document-parse) facts for the feedback loop.
+func evalHTML(c *fw.Ctx, t tally, stream, in string, sample bool) (string, *domFacts) {
+	out, err := sanitize.HTML(in)
+	t["html_inputs"]++
+	detail := func(extra map[string]any) map[string]any {
+		m := map[string]any{"stream": stream, "input": in, "input_b64": b64(in), "output": out}
+		for k, v := range extra {
+			m[k] = v
+		}
+		return m
+	}
+	if err != nil {
+		c.Violation("C18:sanitize-error", fmt.Sprintf("sanitize.HTML(%s) returned error %v", fw.Q(in), err), detail(nil))
+		return "", nil
+	}
+	full, frag, tokenOnly, perr := judgeHTML(out)
+	if perr != "" {
+		t["oracle_parse_failed"]++
+		c.Inconclusive("output could not be parsed by the oracle: " + perr + " input " + fw.Q(in))
+		return out, nil
+	}
+	modes := map[string]*domFacts{"document": full, "fragment": frag}
+	if tokenOnly {
+		t["oracle_fallback_tokenizer"]++
+		modes = map[string]*domFacts{"token-level (output has a foreign-content root)": full}
+	} else {
+		t["out_tree_parsed"]++
+	}
+	for mode, f := range modes {
+		for _, is := range f.Issues {
+			c.Violation("C18:"+is.Key, fmt.Sprintf("sanitize.HTML(%s) = %s: %s [%s parse]", fw.Q(in), fw.Q(out), is.What, mode),
+				detail(map[string]any{"parse": mode, "what": is.What}))
+		}
+	}
+	// evidence
+	t["out_elements"] += int64(full.Elements)
+	t["out_style_attrs"] += int64(full.StyleAttrs)
+	t["out_style_decls_allowlisted"] += int64(full.AllowedDecls)
+	t["out_style_decls_seen"] += int64(full.StyleDecls)
+	t["out_anchors"] += int64(full.Anchors)
+	t["style_nesting_era_extra_decl"] += int64(full.NestingEra)
+	for k, v := range full.Extra {
+		if v != 0 {
+			t["out_"+k] += int64(v)
+		}
+	}
+	for class, what := range full.Notes {
+		if !noted[class] {
+			noted[class] = true
+			c.Note(fmt.Sprintf("counted class %s, e.g. sanitize.HTML(%s) = %s: %s", class, fw.Q(in), fw.Q(out), what))
+		}
+	}
+	classes := inputClasses(in)
+	var hasEl, hasOn, hasJS, hasCSS bool
+	for _, k := range classes {
+		switch {
+		case strings.HasPrefix(k, "el:"):
+			hasEl = true
+		case k == "on":
+			hasOn = true
+		case k == "jsurl":
+			hasJS = true
+		case strings.HasPrefix(k, "css:"):
+			hasCSS = true
+		}
+	}
+	if hasEl {
+		t["in_forbidden_element"]++
+	}
+	if hasOn {
+		t["in_event_attr"]++
+	}
+	if hasJS {
+		t["in_javascript_url"]++
+	}
+	if hasCSS {
+		t["in_css_not_allowlisted"]++
+	}
+	if out == "" {
+		t["out_empty"]++
+	}
+	if len(classes) > 0 || len(full.KeptProps) > 0 {
+		var kept []string
+		for k := range full.KeptProps {
+			kept = append(kept, k)
+		}
+		sort.Strings(kept)
+		flags := ""
+		if full.Anchors > 0 {
+			flags += "a"
+		}
+		if full.StyleAttrs > 0 {
+			flags += "s"
+		}
+		if full.Extra["css_comments"] > 0 {
+			flags += "c"
+		}
+		if len(full.Extra) > 0 {
+			flags += "x"
+		}
+		c.NonTrivial(stream + "|" + strings.Join(classes, ",") + "|" + strings.Join(kept, ",") + "|" + flags)
+	}
+	if sample {
+		c.Sample(map[string]any{"stream": stream, "input": fw.Trunc(in, 300), "output": fw.Trunc(out, 300), "input_classes": classes})
+	}
+	return out, full
+}
+
+// outFeatures is the cheap coverage proxy of the feedback loop.
+func outFeatures(out string, f *domFacts) uint64 {
+	h := fnv.New64a()
+	lo := strings.ToLower(out)
+	for _, s := range []string{"<a", "<img", "<p", "<div", "<table", "<td", "style=", "href=", "src=", "cite=", "on", "script", "javascript",
+		"vbscript", "data:", "/*", "*/", "url(", "expression", "\\", "&#", "&amp;", "&lt;", "position", "{", "}", "@", ";", "\x00", "�",
+		"<!--", "title=", "alt=", "rel=", "width=", "colspan", "<", "&#34;", "&#39;", "(", ")"} {
+		if strings.Contains(lo, s) {
+			_, _ = h.Write([]byte(s))
+			_, _ = h.Write([]byte{0})
+		}
+	}
+	if f != nil {
+		var kept []string
+		for k := range f.KeptProps {
+			kept = append(kept, k)
+		}
+		sort.Strings(kept)
+		_, _ = h.Write([]byte(strings.Join(kept, ",")))
+		var ex []string
+		for k, v := range f.Extra {
+			if v > 0 {
+				ex = append(ex, k)
+			}
+		}
+		sort.Strings(ex)
+		_, _ = h.Write([]byte(strings.Join(ex, ",")))
+		_, _ = h.Write([]byte{byte(min(f.Elements, 6)), byte(min(f.StyleAttrs, 3)), byte(min(f.StyleDecls, 4))})
+	}
+	return h.Sum64()
+}
+
+// feedbackSession is a self-contained mutation-feedback loop (deterministic in r): inputs
+// whose sanitized output shows a feature set not seen before in this session join the pool
+// and are mutated further.
+func feedbackSession(c *fw.Ctx, t tally, r *fw.Rand, iters int) {
+	var pool []string
+	for i := 0; i < 24; i++ {
+		pool = append(pool, pick(r, xssCorpus))
+	}
+	for i := 0; i < 8; i++ {
+		pool = append(pool, genHTMLDoc(r))
+	}
+	for i := 0; i < 8; i++ {
+		pool = append(pool, "<div style=\""+strings.ReplaceAll(genCSS(r), `"`, "&quot;")+"\">x</div>")
+	}
+	seen := map[uint64]bool{}
+	other := func() string { return pool[r.Intn(len(pool))] }
+	for it := 0; it < iters; it++ {
+		var base string
+		if len(pool) > 16 && r.Bool() {
+			base = pool[len(pool)-1-r.Intn(16)] // recent additions
+		} else {
+			base = other()
+		}
+		in := mutate(r, base, other)
+		out, f := evalHTML(c, t, "feedback", in, false)
+		if f == nil {
+			continue
+		}
+		// only outputs that still carry markup or suspicious words are worth keeping
+		lo := strings.ToLower(out)
+		interesting := strings.Contains(lo, "style=") || strings.Contains(lo, "script") || strings.Contains(lo, "on") ||
+			strings.Contains(lo, "javascript") || hasTagOpen(out)
+		if !interesting {
+			continue
+		}
+		k := outFeatures(out, f)
+		if seen[k] {
+			continue
+		}
+		seen[k] = true
+		t["feedback_pool_additions"]++
+		if len(pool) < 600 {
+			pool = append(pool, in)
+		} else {
+			pool[40+r.Intn(len(pool)-40)] = in
+		}
+	}
+	c.Max("max_feedback_pool", int64(len(pool)))
+}
+
+func hasTagOpen(s string) bool {
+	for i := 0; i+1 < len(s); i++ {
+		if s[i] == '<' {
+			ch := s[i+1]
+			if (ch >= 'a' && ch <= 'z') || (ch >= 'A' && ch <= 'Z') {
+				return true
+			}
+		}
+	}
+	return false
+}
+
+// evalText runs web.TextToHTML on one input and applies the tokenizer oracle.
+func evalText(c *fw.Ctx, t tally, stream, in string, sample bool) {
+	out := web.TextToHTML(in)
+	judgeTextOutput(c, t, stream, in, out, sample)
+}
+
+func judgeTextOutput(c *fw.Ctx, t tally, stream, in, out string, sample bool) {
+	f := judgeText(in, out)
+	t["text_inputs"]++
+	for _, is := range f.Issues {
+		c.Violation("C18:"+is.Key, fmt.Sprintf("TextToHTML(%s) = %s: %s", fw.Q(in), fw.Q(out), is.What),
+			map[string]any{"stream": stream, "input": in, "input_b64": b64(in), "output": out, "what": is.What})
+	}
+	t["text_anchors"] += int64(f.Anchors)
+	t["text_breaks"] += int64(f.Breaks)
+	t["text_javascript_anchor_generated"] += int64(f.JSAnchors)
+	t["text_vbscript_or_data_anchor_generated"] += int64(f.OtherScheme)
+	t["text_anchor_href_differs_from_text"] += int64(f.HrefNotText)
+	if f.SpecialsInput {
+		t["text_inputs_with_specials"]++
+	}
+	if f.BreakCountDiffers {
+		t["text_break_count_differs"]++
+	}
+	if f.EntitySplit {
+		t["text_entity_split_by_anchor"]++
+		if !noted["text_entity_split"] {
+			noted["text_entity_split"] = true
+			c.Note(fmt.Sprintf("counted class text_entity_split_by_anchor, e.g. TextToHTML(%s) = %s", fw.Q(in), fw.Q(out)))
+		}
+	}
+	if f.Anchors > 0 || f.Breaks > 0 || f.SpecialsInput {
+		c.NonTrivial(fmt.Sprintf("%s|sp=%v|a=%d|br=%d|js=%v|split=%v|hd=%v", stream, specials(in), min(f.Anchors, 4), min(f.Breaks, 4),
+			f.JSAnchors > 0, f.EntitySplit, f.HrefNotText > 0))
+	}
+	if sample {
+		c.Sample(map[string]any{"stream": stream, "input": fw.Trunc(in, 200), "output": fw.Trunc(out, 400)})
+	}
+}
+
+func specials(s string) string {
+	out := ""
+	for _, ch := range []string{"<", ">", "&", "\"", "'", "\r\n", "\r", "\n"} {
+		if strings.Contains(s, ch) {
+			out += fmt.Sprintf("%q", ch)
+		}
+	}
+	return out
+}
